@@ -618,6 +618,23 @@ func cfgGME(c *cfgCase, rng *vRand, cfg *pb.ApiConfig) {
 		got.ChannelPool = &pb.ChannelPoolConfig{}
 	}
 	got.ChannelPool.MaxSize += 7
+	// also nested parts of the returned copy: entries of the method list, their name lists and affinity sections
+	for _, m := range got.Method {
+		if m == nil {
+			continue
+		}
+		for i := range m.Name {
+			m.Name[i] += "-changed"
+		}
+		m.Name = append(m.Name, "/changed/by/caller")
+		if m.Affinity != nil {
+			m.Affinity.AffinityKey += ".changed"
+			m.Affinity.Command = pb.AffinityConfig_UNBIND
+		} else {
+			m.Affinity = &pb.AffinityConfig{AffinityKey: "added"}
+		}
+		c.out.hit("C17.gme-config-nested-mutation")
+	}
 	got.Method = append(got.Method, &pb.MethodConfig{Name: []string{"x"}})
 	if cfg.ChannelPool == nil {
 		cfg.ChannelPool = &pb.ChannelPoolConfig{}
